@@ -18,7 +18,7 @@ use std::sync::Mutex;
 use std::time::Duration;
 
 const NSUBS: usize = 4;
-const DUE: Duration = Duration::from_secs(4);
+const DUE: Duration = Duration::from_secs(8);
 
 #[derive(Clone, Debug)]
 pub enum Op {
